@@ -134,11 +134,15 @@ class Func:
                         binds[t.id] = binds.get(t.id, True) and ok
         self.local_containers = {k for k, v in binds.items() if v} - set(self.all_params)
         self.array_evidence = set()
+        self.array_evidence_attrs = set()
         for n in pf.walk_no_nested(node):
             if isinstance(n, ast.Subscript) and isinstance(n.value, ast.Name):
                 self.array_evidence.add(n.value.id)
             if isinstance(n, ast.Attribute) and isinstance(n.value, ast.Name):
                 self.array_evidence.add(n.value.id)  # has attributes / methods: an object, not a python scalar
+            if isinstance(n, (ast.Attribute, ast.Subscript)) and isinstance(n.value, ast.Attribute) \
+                    and isinstance(n.value.value, ast.Name) and n.value.value.id == "self":
+                self.array_evidence_attrs.add(n.value.attr)
 
     def _doc_types(self):
         doc = ast.get_docstring(self.node) or ""
@@ -576,10 +580,13 @@ class FuncAnalysis:
         f, P = self.f, self.P
         for r in roots:
             if is_state(r):
-                if r != "self" and not augname:
+                if r != "self" and (not augname or r.split("[")[0][5:] in f.array_evidence_attrs
+                                    or (isinstance(stmt, ast.AugAssign) and isinstance(stmt.target, ast.Name)
+                                        and stmt.target.id in f.array_evidence)):
                     # storage reachable from an instance attribute is (re)written: object state, not a
-                    # caller array; recorded for the scratch-buffer / cache-alias rule
-                    self.new_state.setdefault(r, set()).add(cfg_head(stmt)[:90])
+                    # caller array; recorded for the scratch-buffer / cache-alias / cache-mutate rules
+                    weak = cause[0] == "call" and not cause[3]
+                    self.new_state.setdefault(r, set()).add(("weak: " if weak else "") + cfg_head(stmt)[:90])
                 continue
             ent = self.new_writes.setdefault(r, {"legit": False, "origins": {}})
             if r in f.all_params and P.is_buffer(f, r):
